@@ -310,6 +310,206 @@ func onceDoCall(in ssa.Instruction) (*pvar, *ssa.Function, bool) {
 	return g, cl, g != nil
 }
 
+// checkPublishLast: an object handed to other goroutines through an atomic
+// publication (atomic.Value / atomic.Pointer Store, Swap, CompareAndSwap,
+// atomic.StorePointer) is complete at that moment: on no path after the
+// publishing call does the publishing function write through the object or
+// pass it to a call (which might). A reader that obtains the object from the
+// atomic has a happens-before edge only with what preceded the Store; later
+// fills race with it and may be observed half-done.
+func checkPublishLast(p *Program, r *Report, rule string) {
+	isPublish := func(c *ssa.Call) (ssa.Value, bool) {
+		f := staticCallee(c)
+		if f == nil || f.Pkg == nil || f.Pkg.Pkg.Path() != "sync/atomic" {
+			return nil, false
+		}
+		args := c.Call.Args
+		switch f.Name() {
+		case "Store", "Swap":
+			if f.Signature.Recv() != nil && len(args) == 2 {
+				return args[1], true
+			}
+		case "CompareAndSwap":
+			if f.Signature.Recv() != nil && len(args) == 3 {
+				return args[2], true
+			}
+		case "StorePointer", "SwapPointer":
+			if len(args) == 2 {
+				return args[1], true
+			}
+		case "CompareAndSwapPointer":
+			if len(args) == 3 {
+				return args[2], true
+			}
+		}
+		return nil, false
+	}
+	// the storage an SSA value refers to (through conversions, re-slicing and element addresses)
+	var root func(v ssa.Value, d int) ssa.Value
+	root = func(v ssa.Value, d int) ssa.Value {
+		if d > 20 {
+			return v
+		}
+		switch x := v.(type) {
+		case *ssa.MakeInterface:
+			return root(x.X, d+1)
+		case *ssa.ChangeType:
+			return root(x.X, d+1)
+		case *ssa.ChangeInterface:
+			return root(x.X, d+1)
+		case *ssa.Convert:
+			return root(x.X, d+1)
+		case *ssa.Slice:
+			return root(x.X, d+1)
+		case *ssa.IndexAddr:
+			return root(x.X, d+1)
+		case *ssa.FieldAddr:
+			return root(x.X, d+1)
+		case *ssa.TypeAssert:
+			return root(x.X, d+1)
+		case *ssa.UnOp:
+			if x.Op == token.MUL {
+				if _, isAlloc := x.X.(*ssa.Alloc); isAlloc {
+					return x.X // a local variable holding the object
+				}
+			}
+		}
+		return v
+	}
+	n := 0
+	for _, f := range p.SrcFuncs() {
+		for _, b := range f.Blocks {
+			for i, in := range b.Instrs {
+				c, ok := in.(*ssa.Call)
+				if !ok {
+					continue
+				}
+				pub, ok := isPublish(c)
+				if !ok {
+					continue
+				}
+				switch pub.Type().Underlying().(type) {
+				case *types.Basic:
+					continue // a number or string: nothing to write through
+				}
+				n++
+				rt := root(pub, 0)
+				// instructions that may execute after the publication
+				var after []ssa.Instruction
+				after = append(after, b.Instrs[i+1:]...)
+				seen := map[*ssa.BasicBlock]bool{}
+				var walk func(bb *ssa.BasicBlock)
+				walk = func(bb *ssa.BasicBlock) {
+					if seen[bb] {
+						return
+					}
+					seen[bb] = true
+					after = append(after, bb.Instrs...)
+					for _, s := range bb.Succs {
+						walk(s)
+					}
+				}
+				for _, s := range b.Succs {
+					walk(s)
+				}
+				bad := ""
+				for _, a := range after {
+					switch x := a.(type) {
+					case *ssa.Store:
+						if root(x.Addr, 0) == rt {
+							if _, direct := x.Addr.(*ssa.Alloc); direct {
+								continue // reassigning the local variable, not the object
+							}
+							bad = "is written at " + p.InstrPos(x)
+						}
+					case ssa.CallInstruction:
+						if x == ssa.CallInstruction(c) {
+							continue
+						}
+						cc := x.Common()
+						if bi, isB := cc.Value.(*ssa.Builtin); isB && (bi.Name() == "len" || bi.Name() == "cap") {
+							continue
+						}
+						if _, again := isPublishCall(x, isPublish); again {
+							continue
+						}
+						for _, arg := range cc.Args {
+							if root(arg, 0) == rt {
+								bad = "is passed to " + cc.Value.Name() + " at " + p.InstrPos(x)
+							}
+						}
+					}
+					if bad != "" {
+						break
+					}
+				}
+				r.Check(bad == "", rule, fmt.Sprintf("%s publication #%d", shortFn(f), n), p.InstrPos(c),
+					"the published object is neither written nor passed on by this function after the atomic publication",
+					"the object published here "+bad+" after the publication: a goroutine that loads it from the atomic may see it unfinished (data race; unfilled table entries read as zero)")
+			}
+		}
+	}
+	if n == 0 {
+		r.Hold(rule, "atomic publications", "-", "no object is published through sync/atomic in the module (lazily built state goes through sync.Once, rule O1)")
+	}
+}
+
+func isPublishCall(x ssa.CallInstruction, isPublish func(*ssa.Call) (ssa.Value, bool)) (ssa.Value, bool) {
+	c, ok := x.(*ssa.Call)
+	if !ok {
+		return nil, false
+	}
+	return isPublish(c)
+}
+
+// checkOnceSingle: one Once, one initialiser. Every sync.Once of the module is
+// handed the same function at all of its Do call sites. Two different
+// initialisers sharing one Once are each individually "guarded", yet whichever
+// runs first suppresses the other for the life of the process: the second
+// table is never built (a history-dependent failure no single call exposes).
+func checkOnceSingle(p *Program, r *Report, rule string) {
+	inits := map[*pvar]map[*ssa.Function]string{}
+	unknown := map[*pvar]string{}
+	var order []*pvar
+	for _, f := range p.SrcFuncs() {
+		for _, b := range f.Blocks {
+			for _, in := range b.Instrs {
+				g, cl, ok := onceDoCall(in)
+				if !ok {
+					continue
+				}
+				if inits[g] == nil {
+					inits[g] = map[*ssa.Function]string{}
+					order = append(order, g)
+				}
+				if cl == nil {
+					unknown[g] = p.InstrPos(in)
+					continue
+				}
+				inits[g][cl] = p.InstrPos(in)
+			}
+		}
+	}
+	sort.Slice(order, func(i, j int) bool { return order[i].String() < order[j].String() })
+	for _, g := range order {
+		key := strings.TrimPrefix(g.String(), ModPath+"/") + " initialiser"
+		if w, bad := unknown[g]; bad {
+			r.Undecide(rule, key, w, "the function handed to Do is not a function literal or named function: which initialiser this Once guards cannot be determined")
+			continue
+		}
+		var names, sites []string
+		for f, w := range inits[g] {
+			names = append(names, shortFn(f))
+			sites = append(sites, w)
+		}
+		sort.Strings(names)
+		sort.Strings(sites)
+		r.Check(len(names) == 1, rule, key, p.Pos(g.Pos()),
+			"every Do on this Once is handed the same function "+names[0],
+			fmt.Sprintf("%d different functions share this Once (%s at %s): only the first of them to be reached ever runs, the other's table is never built", len(names), strings.Join(names, ", "), strings.Join(sites, ", ")))
+	}
+}
+
 func runC11(p *Program, r *Report) {
 	r.Explanation = "Program-wide who-may-write and dominance analysis on go/ssa (no schedule is run; the argument is the Go memory model's happens-before): (O1) every package-level variable with a store outside package initialisation is written only by code that every call path reaches through Do of one and the same package-level sync.Once (the function passed to Do and what only it calls; execution-context analysis over static call edges), and EVERY load of it, in any function, is dominated by a Do call on that same Once (or lies in the closure) — an unsynchronised `if lut != nil` fast path is a data race whatever the race detector happens to observe; (O2) every other package-level variable, and every element of package-level slices/arrays/maps, is written only during initialisation, and no sync.Once is copied or reset; (O3) closures run by parallel.RunWorkers write only per-iteration locals and pixels of the row they own (rule S1 of C10/C15: rows are disjoint residue classes), never a captured variable, and only read the source; (O4) no function reachable from the loaders / profile reader writes package-level state; no go statement exists outside go-parallel. Derived: every pair of conflicting accesses is ordered by Once, by goroutine start/WaitGroup, or does not exist. Not decided: races inside caller-supplied image.Image / io.Reader implementations; the race detector's own verdict."
 	r.RuleText = "one instance per package-level variable (classification), per load of a lazily published variable, per worker closure, per entry point"
@@ -555,6 +755,9 @@ func runC11(p *Program, r *Report) {
 		}
 		r.Check(bad == "", "C11.O2", strings.TrimPrefix(g.String(), ModPath+"/")+" usage", p.Pos(g.Pos()), "only ever used as the receiver of Do (never copied, reset or replaced)", "sync.Once is used other than as a Do receiver: "+bad)
 	}
+
+	checkOnceSingle(p, r, "C11.O2")
+	checkPublishLast(p, r, "C11.O5")
 
 	// ---- O3 workers
 	nWorkers := 0
